@@ -361,3 +361,62 @@ func HRRRecord(sid []byte) []byte {
 func ServerHelloRecord(sid []byte) []byte {
 	return tlsref.Record(22, 0x0303, tlsref.ServerHelloMsg(false, sid, []tlsref.Ext{{Type: tlsref.ExtSupportedVersions, Data: []byte{3, 4}}, {Type: tlsref.ExtKeyShare, Data: append([]byte{0, 0x1d, 0, 32}, tlsref.DetBytes("srv-share", 32)...)}}))
 }
+
+// ---- self-contained replay artefacts for the stream-based ECH checks ----
+
+// KeysDoc renders a key list so that a replay file is self-contained.
+func KeysDoc(keys []ech.Key) []map[string]string {
+	var out []map[string]string
+	for _, k := range keys {
+		out = append(out, map[string]string{"config": Hex(k.Config), "private_key": Hex(k.PrivateKey)})
+	}
+	return out
+}
+
+// ReplayStream re-executes a replay document that holds "stream" (hex, the client's bytes) and
+// optionally "keys" (as written by KeysDoc) and "ops" (later records: dir 'c'/'b' + hex data), and
+// prints every observable. It needs no explorer and no generator.
+func ReplayStream(doc map[string]any) string {
+	unhex := func(v any) []byte {
+		s, _ := v.(string)
+		b := make([]byte, len(s)/2)
+		fmt.Sscanf(s, "%x", &b)
+		return b
+	}
+	var keys []ech.Key
+	if l, ok := doc["keys"].([]any); ok {
+		for _, e := range l {
+			m, _ := e.(map[string]any)
+			keys = append(keys, ech.Key{Config: unhex(m["config"]), PrivateKey: unhex(m["private_key"]), SendAsRetry: true})
+		}
+	}
+	stream := unhex(doc["stream"])
+	if stream == nil {
+		stream = unhex(doc["first"])
+	}
+	ops, _ := doc["ops"].([]any)
+	if len(ops) == 0 {
+		res := Feed(stream, keys)
+		return fmt.Sprintf("NewConn error: %v (class %s)\npanic: %v\naccepted: %v\nServerName: %q ALPN: %q\nforwarded (%d bytes): %x\nread error: %v\nwritten to client: %x\ntransport Close calls: %d\n",
+			res.Err, ErrClass(res.Err), res.Panic, res.Accepted, res.ServerName, res.ALPN, len(res.Forwarded), res.Forwarded, res.ReadErr, res.ClientOut, res.Closed)
+	}
+	sess, err, p := OpenSession(stream, keys)
+	out := fmt.Sprintf("NewConn error: %v panic: %v\n", err, p)
+	if err != nil || p != nil {
+		return out
+	}
+	for i, o := range ops {
+		m, _ := o.(map[string]any)
+		dir := fmt.Sprint(m["dir"])
+		data := unhex(m["data"])
+		if dir == "99" || dir == "c" {
+			got, err, p := sess.ClientSend(data)
+			out += fmt.Sprintf("op %d client sends %d bytes -> Read: %d bytes %x err=%v panic=%v\n", i, len(data), len(got), got, err, p)
+		} else {
+			n, err, p := sess.BackendSend(data)
+			out += fmt.Sprintf("op %d backend writes %d bytes -> Write: n=%d err=%v panic=%v\n", i, len(data), n, err, p)
+		}
+	}
+	out += fmt.Sprintf("written to client in total: %x\ntransport Close calls: %d\n", sess.T.OutBytes(), sess.T.CloseCount)
+	return out
+}
